@@ -9,7 +9,7 @@ import re
 import shutil
 import subprocess
 
-from ckl.errors import CklRuntimeError
+from ckl.errors import CklRuntimeError, CklSyntaxError
 from ckl.parser import parse_script
 from ckl.date import to_oa_date, to_date
 from ckl.values import (
@@ -3642,7 +3642,14 @@ class FuncS(ValueFunc):
                         + s[idx1+1:idx2] + "}",
                         pos,
                     )
-            node = parse_script(variable, pos.filename)
+            try:
+                node = parse_script(variable, pos.filename)
+            except CklSyntaxError as e:
+                raise CklRuntimeError(
+                    ValueString("ERROR"),
+                    "Cannot parse expression {" + variable + "}: " + e.msg,
+                    pos,
+                )
             value = node.evaluate(environment).asString().value
             try:
                 if base != 10:
